@@ -20,6 +20,10 @@ void h_accept_decodable(void)
     in_init();
     uint8_t *b = V_MALLOC(N);
     for(unsigned k = 0; k < N; k++) b[k] = IN.buf[k];
+#ifdef PREFIX_BYTES
+    /* structured variant: address and type tag string fixed by the generator, the payload region fully symbolic */
+    { static const uint8_t pre[] = { PREFIX_BYTES }; for(unsigned k = 0; k < sizeof pre && k < N; k++) b[k] = pre[k]; }
+#endif
 
     size_t L = rtosc_message_length((const char*)b, N);
     V_ASSERT(L == 0 || L <= N, "C07 message_length reports 0 or at most n");
@@ -32,6 +36,7 @@ void h_accept_decodable(void)
     spec_decode(b, N, IN.idx, &m);
     V_ASSERT(m.ok, "C07 accepted buffer is decodable by the reference decoder");
     V_ASSERT(m.total <= N, "C07 decoded extent inside n");
+    V_ASSERT(m.total == N, "C07 accepted => the reference decoder's message is exactly the n bytes (same extents)");
     V_ASSERT(L == N, "C07 accepted => message_length == n");
 
     const char *as = rtosc_argument_string((const char*)b);
